@@ -17,6 +17,7 @@
 #include <vector>
 #include <sstream>
 #include "c06_native.h"
+#include "c06_invoke.h"
 
 using namespace asmjit;
 
@@ -227,7 +228,8 @@ static void cmd_S(std::vector<long>& v, const char* native_hex = nullptr) {
     const uint8_t* d = text->data();
     for (size_t i = 0; i < text->buffer_size(); i++) { char hx[4]; snprintf(hx, sizeof(hx), "%02x", d[i]); bytes += hx; }
     // X command: run the bytes on the host CPU from the given register / frame image
-    if (native_hex && arch == 1 && e2 == Error::kOk) {
+    // (arch 0: the caller has checked with llvm-mc that the i386 bytes decode to the same instructions in 64-bit mode)
+    if (native_hex && arch <= 1 && e2 == Error::kOk) {
       std::vector<uint8_t> in, out(c06native::kBlob, 0);
       c06native::parse_hex(native_hex, in);
       if (in.size() == c06native::kBlob && c06native::host_ok()) {
@@ -268,6 +270,17 @@ int main() {
     if (c == 'T') cmd_T();
     else if (c == 'F') { if (v.size() < 7 || (v[6] <= 32 && v.size() < size_t(7 + (v[6] > 0 ? v[6] : 0)))) puts("BAD"); else cmd_F(v); }
     else if (c == 'S') { v.resize(v.size() + 400, 0); cmd_S(v); }
+    else if (c == 'I') {
+      // I kind n (mode value)* : a Compiler-built caller passes immediates / virtual registers to a C callee of the host ABI; prints what it received
+      std::vector<long long> w;
+      { char* p2 = buf + 1; while (*p2) { while (*p2 == ' ' || *p2 == '\n') p2++; if (!*p2) break; char* q2; long long x = strtoll(p2, &q2, 10); if (q2 == p2) break; w.push_back(x); p2 = q2; } }
+      if (w.size() < 2 || w.size() < size_t(2 + 2 * w[1])) { puts("BAD"); fflush(stdout); continue; }
+      std::vector<int> mode; std::vector<int64_t> val;
+      for (long long k = 0; k < w[1]; k++) { mode.push_back(int(w[2 + 2 * k])); val.push_back(int64_t(w[3 + 2 * k])); }
+      std::string err = c06invoke::run(int(w[0]), mode, val);
+      if (!err.empty()) printf("I err=%s\n", err.c_str());
+      else { std::string o = "I ok"; for (int k = 0; k < c06invoke::g_cnt; k++) o += " " + std::to_string((long long)c06invoke::g_rec[k]); puts(o.c_str()); }
+    }
     else if (c == 'X') {
       // same integers as S, then " H<hex image>" : additionally executes the emitted code natively (x86-64 host only)
       const char* h = strstr(buf, " H");
